@@ -98,7 +98,7 @@ theorem collect_ok (L : Laws3 D) {W : World} {S : Array Cell} {lv : Val} : ∀ (
     rw [pushAll_append] at hst
     change LiveEq ((pushAll a rvs.reverse).push v) b at hst
     obtain ⟨b1, hpop, hl1, hw1⟩ := pop_push' hst (pushAll_swf _ _ ha) hb
-    obtain ⟨h1, pa, e1, s1, p1, p2, p3⟩ := L.put_val h S v hsrx
+    obtain ⟨h1, pa, e1, s1, p1, p2, p3⟩ := L.put_val h S v W x hsrx hvx
     obtain ⟨h2, p, e2, s2, hd2⟩ := L.put_pair h1 S pa acc s1.srx
     obtain ⟨l, hS, hlist'⟩ := ListTl.snoc_inv hlist
     have hx1 : VR3 D W h1 S (.ptr pa) x := hvx.put s1 p1 p2 p3
@@ -160,8 +160,8 @@ theorem stepVarArg_ok (L : Laws3 D) {W : World} {s : MSt H} {S : Array Cell} {re
     cases hlist with
     | @cons l _ d _ hS ht =>
     cases ht
-    obtain ⟨h1, a, e1, s1, p1, p2, p3⟩ := L.put_val s.heap S v hsrx
-    obtain ⟨h2, n, e2, s2, q1, _, _⟩ := L.put_val h1 S .nil s1.srx
+    obtain ⟨h1, a, e1, s1, p1, p2, p3⟩ := L.put_val s.heap S v W x hsrx hvx
+    obtain ⟨h2, n, e2, s2, q1, _, _⟩ := L.put_val h1 S .nil W .nil s1.srx (.base (L.nil _ _))
     obtain ⟨h3, p, e3, s3, hd3⟩ := L.put_pair h2 S a n s2.srx
     have hlt : st0.sp + 1 + req < s.stack.cells.length := by unfold SWF at hw; omega
     have hset : s.stack.setOffset (-3) (.ptr p) =
@@ -215,7 +215,7 @@ theorem stepVarArg_ok (L : Laws3 D) {W : World} {s : MSt H} {S : Array Cell} {re
     obtain ⟨st1, pp1, l1, w1⟩ := pop_push' hst hC hw
     obtain ⟨st2, pp2, l2, w2⟩ := pop_push' l1 hB w1
     obtain ⟨st3, pp3, l3, w3⟩ := pop_push' l2 hA w2
-    obtain ⟨h1, n, e1, s1, q1, _, _⟩ := L.put_val s.heap S .nil hsrx
+    obtain ⟨h1, n, e1, s1, q1, _, _⟩ := L.put_val s.heap S .nil W .nil hsrx (.base (L.nil _ _))
     have hwa : SWF (pushAll st0 (vs.take req)) := pushAll_swf _ _ hw0
     obtain ⟨h', lst, b', hc, hl', hw', hv', s'⟩ := collect_ok (W := W) (lv := lv) L (vs.drop req).reverse
       (ws.drop req).reverse (pushAll st0 (vs.take req)) st3 h1 n .nil
